@@ -8,7 +8,7 @@ use std::cell::RefCell;
 use std::collections::{BTreeMap, HashSet};
 use std::hash::{Hash, Hasher};
 use std::panic::{self, AssertUnwindSafe};
-use std::path::{Path, PathBuf};
+use std::path::PathBuf;
 use std::sync::atomic::{AtomicBool, AtomicU64, Ordering};
 use std::sync::{Arc, Mutex};
 use std::time::{Duration, Instant};
@@ -33,7 +33,11 @@ impl Tier {
     }
 }
 
-pub const VERIF_DIR: &str = "/verif";
+/// Root of the verification tree (the directory holding `check`); evidence, replays, regress inputs
+/// and the known-findings file live there.
+pub fn verif_dir() -> PathBuf {
+    PathBuf::from(std::env::var("VERIF_ROOT").unwrap_or_else(|_| "/verif".to_string()))
+}
 
 pub struct CaseReport {
     pub nontrivial: bool,
@@ -142,7 +146,7 @@ pub struct KnownFinding {
 }
 
 pub fn load_known_findings() -> Vec<KnownFinding> {
-    let path = Path::new(VERIF_DIR).join("known_findings.json");
+    let path = verif_dir().join("known_findings.json");
     let text = match std::fs::read_to_string(&path) {
         Ok(t) => t,
         Err(_) => return vec![],
@@ -176,6 +180,8 @@ pub struct Stats {
     pub excluded_known: BTreeMap<String, u64>,
     pub stages: BTreeMap<String, Value>,
     pub exhaustive: bool,
+    /// non-trivial cases of enumeration stages (distinct by construction, not hashed)
+    pub distinct_by_construction: u64,
 }
 
 impl Stats {
@@ -208,6 +214,8 @@ impl Stats {
             *self.excluded_known.entry(k).or_default() += v;
         }
         self.distinct_nontrivial.extend(other.distinct_nontrivial);
+        self.distinct_by_construction += other.distinct_by_construction;
+        self.exhaustive |= other.exhaustive;
         for s in other.samples {
             if self.samples.len() < 8 {
                 self.samples.push(s);
@@ -277,7 +285,7 @@ pub fn run_property<P: Property>(prop: &P, tier: Tier, seed: u64) -> RunOutcome 
     // stage 1: regression inputs and saved replays
     let mut regress_files: Vec<PathBuf> = vec![];
     for dir in ["regress", "replays"] {
-        let d = Path::new(VERIF_DIR).join(dir);
+        let d = verif_dir().join(dir);
         if let Ok(rd) = std::fs::read_dir(&d) {
             for e in rd.flatten() {
                 let name = e.file_name().to_string_lossy().to_string();
@@ -494,7 +502,7 @@ pub fn harness_error(msg: &str) -> ! {
 }
 
 pub fn write_replay(id: &str, seed: u64, f: &Failure) -> PathBuf {
-    let dir = Path::new(VERIF_DIR).join("replays");
+    let dir = verif_dir().join("replays");
     let _ = std::fs::create_dir_all(&dir);
     let body = json!({
         "property": id,
@@ -510,12 +518,12 @@ pub fn write_replay(id: &str, seed: u64, f: &Failure) -> PathBuf {
 }
 
 pub fn write_evidence<P: Property>(prop: &P, tier: Tier, seed: u64, out: &RunOutcome) {
-    let dir = Path::new(VERIF_DIR).join("evidence");
+    let dir = verif_dir().join("evidence");
     let _ = std::fs::create_dir_all(&dir);
     let s = &out.stats;
     let mut coverage = json!({
         "evaluations": s.evaluations,
-        "distinct_nontrivial": s.distinct_nontrivial.len(),
+        "distinct_nontrivial": s.distinct_nontrivial.len() as u64 + s.distinct_by_construction,
         "nontrivial_total": s.nontrivial,
         "rule": prop.rule(),
         "samples": s.samples,
@@ -576,7 +584,7 @@ pub fn drive<P: Property>(prop: &P, tier: Tier, seed: u64, replay: Option<&str>)
         tier.name(),
         s.evaluations,
         s.nontrivial,
-        s.distinct_nontrivial.len(),
+        s.distinct_nontrivial.len() as u64 + s.distinct_by_construction,
         s.discarded,
         out.wall_s
     );
@@ -589,7 +597,7 @@ pub fn drive<P: Property>(prop: &P, tier: Tier, seed: u64, replay: Option<&str>)
         println!("VIOLATION property={id} replay={}", path.display());
         return 1;
     }
-    if s.distinct_nontrivial.len() < 2 {
+    if (s.distinct_nontrivial.len() as u64 + s.distinct_by_construction) < 2 {
         harness_error("fewer than 2 distinct non-trivial cases: the generator is broken");
     }
     0
